@@ -327,7 +327,9 @@ func pass2(j job) (res result) {
 			if nt := headerNoTime(p2.Block.BlockHeader); nt != rec.NoTime {
 				ps = append(ps, problem{"propose@process2", fmt.Sprintf("header (time aside) differs between processes:\n      process 1: %s\n      process 2: %s", rec.NoTime, nt)})
 			}
-			if bz, _ := lib.Marshal(p2.Results); !bytes.Equal(bz, rec.Results) {
+			// (at a checkpoint height the results name the hash of the proposed block, which covers the header's wall-clock
+			// time: the second process proposes at another time, so that one field is compared with the time-free header instead)
+			if bz, _ := lib.Marshal(p2.Results); !bytes.Equal(noCheckpointHash(bz), noCheckpointHash(rec.Results)) {
 				ps = append(ps, problem{"propose@process2", fmt.Sprintf("certificate results differ between processes: %x vs %x", rec.Results, bz)})
 			}
 		}
@@ -362,6 +364,20 @@ func pass2(j job) (res result) {
 	}
 	res.OK = true
 	return
+}
+
+// noCheckpointHash re-encodes certificate results with the checkpoint's block hash blanked.
+func noCheckpointHash(bz []byte) []byte {
+	r := new(lib.CertificateResult)
+	if err := lib.Unmarshal(bz, r); err != nil || r.Checkpoint == nil {
+		return bz
+	}
+	r.Checkpoint.BlockHash = nil
+	out, err := lib.Marshal(r)
+	if err != nil {
+		return bz
+	}
+	return out
 }
 
 func exec(j job) (res result) {
@@ -434,6 +450,52 @@ func main() {
 		caps = []int{0, 0, 120, 60}
 	}
 	pool := mc.NewProcPool(*nworkers)
+	// one long chain, in its own worker next to the search: 99 empty blocks, then the blocks of heights 100 and 101
+	// (height 100 is a checkpoint height: controller.CheckpointFrequency; certificate results carry a checkpoint there),
+	// through the same oracles, and re-executed by a second process
+	type longOut struct {
+		viols  []mc.Viol
+		err    string
+		blocks int
+		done   bool
+	}
+	longCh := make(chan longOut, 1)
+	if *only == "" {
+		go func() {
+			var o longOut
+			path := make([]int, 0, 101)
+			for i := 0; i < 99; i++ {
+				path = append(path, recipeByName("empty"))
+			}
+			path = append(path, recipeByName("send"), recipeByName("send"))
+			lp := mc.NewProcPool(1)
+			res, crashed := mc.Map[job, result](lp, []job{{Pass: 1, Path: path}}, r.Expired)
+			switch {
+			case crashed[0]:
+				o.err = "worker died"
+			case res[0] == nil:
+				o.err = "not finished before the soft deadline"
+			case res[0].HarnessErr != "":
+				o.err = res[0].HarnessErr
+			default:
+				o.viols, o.blocks, o.done = res[0].Viols, len(res[0].Blocks), res[0].OK
+				if res[0].OK {
+					res2, cr2 := mc.Map[job, result](lp, []job{{Pass: 2, Path: path, Blocks: res[0].Blocks}}, r.Expired)
+					if !cr2[0] && res2[0] != nil {
+						o.viols = append(o.viols, res2[0].Viols...)
+						if res2[0].HarnessErr != "" {
+							o.err = "second execution: " + res2[0].HarnessErr
+						}
+					} else {
+						o.done = false
+					}
+				}
+			}
+			longCh <- o
+		}()
+	} else {
+		longCh <- longOut{err: "skipped (-only)"}
+	}
 	frontier := [][]int{{}}
 	seen := map[string]bool{}
 	var states, harnessErrs, samePid int
@@ -554,6 +616,14 @@ func main() {
 		depthDone = d + 1
 		frontier = next
 	}
+	lo := <-longCh
+	for _, v := range lo.viols {
+		r.OnViol(v)
+	}
+	if lo.err != "" {
+		r.Note("long chain (heights 1..101): %s", lo.err)
+	}
+	fmt.Printf("long chain to the checkpoint height: blocks=%d complete=%v %s\n", lo.blocks, lo.done, lo.err)
 	if samePid > 0 {
 		r.Note("%d second executions ran in the same process as the first", samePid)
 	}
